@@ -27,6 +27,8 @@ fn main() {
         let up = sp.universe();
         ctx.run_slice(Slice::new(format!("predicates-many-hyperedges[{}]", sp.name()), up.count(), move |i, loc| check::<B>(&up.get_open(i), loc)));
     }
+    let msf = 14usize;
+    ctx.run_slice(Slice::new(format!("sparse-frontier[{} hyperedges, every placement of 3 consumers and a join]", msf), ohmc::props::structured::sparse_frontier_count(msf), move |i, loc| check::<B>(&ohmc::props::structured::sparse_frontier(msf, i), loc)));
     let kmax = if quick { 6 } else { 8 };
     let mut st = ohmc::props::structured::shapes(kmax);
     st.extend(ohmc::props::structured::programs(kmax));
